@@ -329,7 +329,7 @@ static void gen_union(fb_output_t *out)
         "__## NS ## define_vector_field(ID, N, NK, flatbuffers_generic_vec_t, r)\\\n"
         "static inline T ## _union_vec_t N ## _ ## NK ## _union(N ## _table_t t__tmp)\\\n"
         "{ T ## _union_vec_t uv__tmp; uv__tmp.type = N ## _ ## NK ## _type_get(t__tmp);\\\n"
-        "  uv__tmp.value = N ## _ ## NK(t__tmp);\\\n"
+        "  uv__tmp.value = N ## _ ## NK ## _get(t__tmp);\\\n"
         "  FLATCC_ASSERT(NS ## vec_len(uv__tmp.type) == NS ## vec_len(uv__tmp.value)\\\n"
         "  && \"union vector type length mismatch\"); return uv__tmp; }\n",
         nsc);
